@@ -130,3 +130,36 @@ Example C11_ex_eval :
   eval (top_ctx [([x61], VInt 7)] MParse) (XBin OSub (XConst (VInt 1)) (XBin OFloorDiv (XItem (XRoot RThis) (KName [x61])) (XConst (VInt (-2))))) = Ok (VInt 5).
 Proof. split; vm_compute; reflexivity. Qed.
 ''')
+
+PROPS['C12'] = dict(
+    title='C12 - documented construct equivalences hold extensionally',
+    requires_gen=['Names', 'Platform'],
+    theorems=[
+        ('LawFacts', 'law_Optional', 'Optional(x) and Select(x, Pass) as the library defines them NOW (regenerated) are the same term, hence equivalent on every input.'),
+        ('LawFacts', 'law_If', 'If(c, x) <--> IfThenElse(c, x, Pass).'),
+        ('LawFacts', 'law_Padding', 'Padding(n) <--> Padded(n, Pass).'),
+        ('LawFacts', 'law_PrefixedArray', 'PrefixedArray(l, x) <--> its documented FocusedSeq expansion.'),
+        ('LawFacts', 'law_BitStruct', 'BitStruct(...) <--> Bitwise(Struct(...)).'),
+        ('LawFacts', 'law_Enum_class_vs_keywords', 'Enum from an IntEnum class <--> Enum from keywords.'),
+        ('LawFacts', 'law_FlagsEnum_class_vs_keywords', 'FlagsEnum from an IntFlag class <--> keywords.'),
+        ('LawFacts', 'law_getitem_is_Array', 'x[n] <--> Array(n, x).'),
+        ('LawFacts', 'law_add_is_Struct', 'a + b <--> Struct(a, b).'),
+        ('LawFacts', 'law_rshift_is_Sequence', 'a >> b <--> Sequence(a, b).'),
+        ('LawFacts', 'law_div_is_Renamed', 'name / x <--> Renamed(x, name).'),
+        ('LawFacts', 'law_aliases', 'Byte/Short/Int/Long/Half/Single/Double/Bit/Nibble/Octet are the documented aliases.'),
+        ('LawFacts', 'law_int24_names', 'Int24* are BytesInteger(3) with the documented signed / swapped flags (native = platform byte order).'),
+        ('LawFacts', 'law_fixed_width_names', 'Int*/Float* names are FormatField with the documented format and byte order.'),
+        ('LawFacts', 'law_formatfield_vs_bytesinteger_build', 'Fixed-width FormatField integer vs BytesInteger of that width: identical bytes, or both reject.'),
+        ('LawFacts', 'law_formatfield_vs_bytesinteger_parse', '... identical value and position on parse.'),
+        ('LawFacts', 'law_hexdump_parse', 'HexDump(x) parses exactly as x.'),
+        ('LawFacts', 'law_hex_build_bytes', 'Hex(x) builds exactly the bytes x builds (or fails as x fails).'),
+        ('LawFacts', 'law_hexdump_build_bytes', 'HexDump(x) likewise.'),
+        ('LawFacts', 'law_hex_parse', 'Hex(x) returns the value x returns; it never rejects with SizeofError what x accepts.'),
+        ('LawFacts', 'law_byteswapped_int24_parse', 'ByteSwapped(Int24ub) <--> Int24ul on every 3-byte input at any position.'),
+    ],
+    examples='''
+Example C12_ex_hex_varint :
+  parse_at (CHex CVarInt) [] [xac; x02] 0 = Ok (VInt 300, 2%Z) /\\
+  parse_at i_ByteSwapped_Int24ub [] [x01; x02; x03] 0 = parse_at n_Int24ul [] [x01; x02; x03] 0.
+Proof. split; vm_compute; reflexivity. Qed.
+''')
